@@ -323,6 +323,14 @@ def run(ctx):
     R.ob('C09.eof', ('client dispatch poll', 'end-of-stream ends the dispatch'), not pend_after_eof,
          'once the transport read returned Ready(None) the dispatch does not go back to waiting: calls outstanding at end-of-stream resolve with a connection/shutdown error, none hangs',
          [dpoll.loc(dpoll.d)], 'Pending exits after the read side ended: %s' % sorted(set(pend_after_eof), key=repr)[:4])
+    # "a failing close is reported": the only way the dispatch ends well while the peer has not ended the read side is after poll_close returned Ready(Ok) in that
+    # very activation (the close is carried through on every activation until it completes: a close that was merely started — a flag set when it begins — and
+    # then assumed done would hide a failure of any later close poll)
+    oks_ = [(ret, e[0]) for (ret, e, lab) in d_['exits'] if isinstance(ret, tuple) and ret[0] == 'Ready' and isinstance(ret[1], tuple) and ret[1][0] == 'Ok']
+    badok_ = sorted({a for ret, a in oks_ if not (a[0] == 'Closed' or a[1])}, key=repr)
+    R.ob('C09.close', ('client dispatch poll', 'ends well only after the close completed'), bool(oks_) and not badok_,
+         'the dispatch completes with Ok only if the read side ended or poll_close returned Ready(Ok) in this activation: an error of a later close poll cannot be skipped', [dpoll.loc(dpoll.d)],
+         'offending (R last, closed, table empty): %s' % badok_)
     for key, entry, name in [('client', dpoll, 'client dispatch poll')] + [(chain_name(ch), rp, 'Requests<%s>::poll_next' % chain_name(ch)) for ch in chains]:
         r = res[key]
         R.count('states_explored', r['stats'].get('states', 0))
